@@ -50,7 +50,8 @@ OPS_REQUIRED = ["sort_tree", "get_subtree", "to_subtree", "cut_tree", "redirect_
                 "RadiusReseter", "Transforms"]
 REQUIRED = ["contract_evals_" + o for o in OPS_REQUIRED] + [
     "steps_executed", "probe_output_poison", "probe_input_poison", "roundtrip_steps",
-    "identity_transform_steps"]
+    "identity_transform_steps", "same_tree_in_two_argument_positions",
+    "steps_on_readonly_columns"]
 FLOOR = {"quick": 300, "thorough": 6000}
 SHARDS = {"quick": 8, "thorough": 16}
 
@@ -97,7 +98,7 @@ def draw_op(rng, t, allow_grow=True):
 
     n = len(t)
     choices = ["sort_tree", "get_subtree", "node_subtree", "to_subtree", "cut_enter", "cut_leave",
-               "cut_noop", "redirect", "redirect_nosort", "cat", "CutByType", "CutAxon",
+               "cut_noop", "redirect", "redirect_nosort", "cat", "cat_self", "CutByType", "CutAxon",
                "CutByFurcationOrder", "CutShortTipBranch", "Translate", "TranslateT", "Scale",
                "Rotate", "RotateXYZ", "TranslateOrigin", "AffineTransform", "Normalizer",
                "RadiusReseter", "TreeSmoother", "IsometricResampler", "Transforms", "roundtrip",
@@ -134,6 +135,14 @@ def draw_op(rng, t, allow_grow=True):
         # sort=False output has its root at position v: legal, but only as a last step / before sort
         return (f"redirect_tree({v}, sort=False)+sort_tree",
                 lambda a: sort_tree(redirect_tree(a, v, sort=False)), [], None)
+    if name == "cat_self":
+        # a copy of the tree grafted onto the tree itself: one object in both argument positions
+        if not allow_grow or n > 60:
+            return draw_op(rng, t, allow_grow)
+        a_, b_ = int(rng.integers(0, n)), int(rng.integers(0, n))
+        tr = bool(rng.random() < .6)
+        return (f"cat_tree(t, t, a={a_}, b={b_}, translate={tr})",
+                lambda a: cat_tree(a, a, a_, b_, translate=tr), [], "self")
     if name == "cat":
         if not allow_grow:
             return draw_op(rng, t, allow_grow)
@@ -243,6 +252,8 @@ def _run_pipeline(ctx, case):
             ctx.count("roundtrip_steps")
         if kind == "identity":
             ctx.count("identity_transform_steps")
+        if kind == "self":
+            ctx.count("same_tree_in_two_argument_positions")
         # direct checks (also for steps not covered by a contract, e.g. the SWC round trip)
         wf = topo.well_formed(out.id(), out.pid())
         if wf:
